@@ -153,13 +153,13 @@ precedence = (
     ('left', 'SHORT_OP'),
     ('left', 'OR'),
     ('left', 'AND'),
-    ('nonassoc', 'EQ', 'NE', 'GT', 'LT', 'GTE', 'LTE', 'IN'),
+    ('nonassoc', 'EQ', 'NE', 'GT', 'LT', 'GTE', 'LTE', 'IN', 'NOT'),
     ('left', 'PLUS', 'MINUS'),
     ('left', 'TIMES', 'DIVIDE'),
     ('right', 'POWER'),
     ('left', 'PIPE'),
     ('left', 'DOT'),
-    ('right', 'NOT'),
+    ('right', 'UNOT'),
     ('right', 'UMINUS'),
     ('left', 'LBRACKET'),
 )
